@@ -66,4 +66,14 @@ CLAIMS = {
           'and unknown type ids (only never-raise); DT read as D6 | D8 | D8+HHMM; DataTypesImpl.tla (thorough) is a model-only cross-check. Trusted: TLC, JSON transport (length-checked), lib/c13.py.',
   'technique': 'TLA+ model checking (TLC) + replay of TLC-generated inputs into the code + TLC trace validation of complete recorded tables',
  },
+ 'C20': {
+  'text': 'TLC checks on NormGen, for all properly nested histories (<=6..10 segments, three alphabets) whose only defects are wrong IEA/GE/SE counts or HL numbers, that the '
+          'implementation-shaped fixing rule (reader model + rewrite by popped error code from the running counter) equals the definition NormDef (recount), that the repaired output has no '
+          'count defect, that nothing else is altered and that fixing is idempotent; every emitted history is written to a file under 3 delimiter triples x none/LF/CRLF and normalised by the '
+          'real pyx12.scripts.x12norm.main() under the option combinations of eol and count fixing, to stdout, -o file and in place, and a second time; output segments (element by element), '
+          'layout (line break after each terminator when asked, final newline), equality of the three destinations and idempotence are trace-validated by TLC (T_Norm).',
+  'note': 'Inputs are generated envelope/HL skeletons with fixed representative values (no composites); count fixing is only specified for inputs whose only defects are counts; quick tier samples '
+          '2000 histories per alphabet. Trusted: TLC, output splitter in lib/c20.py (splits on the declared terminator and separator only).',
+  'technique': 'TLA+ model checking (TLC) of the fixing rule vs recount definition + replay of TLC histories through x12norm.main() + TLC trace validation',
+ },
 }
